@@ -37,7 +37,7 @@ def wiring(ck, mod, ndirs=3):
                 def mk_read(i):
                     def _read(s, e, paths, dct, len_only=False, sub_channel=None):
                         rec["reads"].append((i, s, e, paths, dct, len_only, sub_channel))
-                        dct["entry%d" % i] = i
+                        dct["entry%d" % i] = [i]          # one block of one sample contributed by this directory
                     return _read
                 tl = [types.SimpleNamespace(_read=mk_read(i)) for i in range(k)]
 
@@ -45,7 +45,8 @@ def wiring(ck, mod, ndirs=3):
                     rec["comb"].append((dct, dict(dct), len_only))
                     return COMBINED
                 props = {"subdir_cadence_secs": pysym.SymInt(Sc), "file_cadence_millisecs": pysym.SymInt(Fc), "sample_rate_numerator": pysym.SymInt(n),
-                         "sample_rate_denominator": pysym.SymInt(d), "num_subchannels": pysym.SymInt(NS)}
+                         "sample_rate_denominator": pysym.SymInt(d), "num_subchannels": pysym.SymInt(NS),
+                         "samples_per_second": ("long double rate (inexact)",)}
                 self_ = types.SimpleNamespace(get_properties=lambda ch: dict(props), _get_file_list=gfl, _combine_blocks=comb,
                                               _channel_dict={"ch": types.SimpleNamespace(top_level_dir_meta_list=tl)})
                 mod.fractions = types.SimpleNamespace(Fraction=lambda a, b=1: ("Fraction", a, b))
